@@ -39,8 +39,8 @@ def mc(ctx, name, cs, liveness=False, timeout=3000):
     return res
 
 
-def gen(ctx, cs, depth, num, seed):
-    path = _cfg(ctx, "LocalPool_gen_head.cfg", dict(cs, D=depth))
+def gen(ctx, cs, depth, num, seed, badkinds=()):
+    path = _cfg(ctx, "LocalPool_gen_head.cfg", dict(cs, D=depth, BadKinds="{" + ", ".join('"%s"' % k for k in badkinds) + "}"))
     res = tlc.run_tlc("LocalPoolGen", path, simulate=num, depth=depth + 1, seed=seed, timeout=900, scratch=ctx.scratch, xmx="4g")
     allv = [v for v in res.values if isinstance(v, dict) and "ev" in v]
     if not allv:
